@@ -96,17 +96,27 @@ ClassLevels(c) ==
     [] c \in {"conflict-pkgname", "conflict-template"} -> {"iface", "entry"}
     \* a cyclic value that every level below overrides, so that no mock uses it
     [] c \in {"cyclic-shadowed"} -> {"root", "pkg", "iface"}
+    \* the module's go.mod / go.sum is incomplete but resolvable offline (a replace without its require line, a missing
+    \* go.sum line for a cached module): under the go command's default -mod=readonly the package does not load
+    [] c \in {"untidy-module"} -> {"pkg"}
 InputClasses == {"unknown-template", "unknown-formatter", "unknown-key", "unknown-key-pkgstruct", "unknown-key-ifacestruct",
                  "schema-data", "cyclic", "include-regex", "exclude-regex", "subpkg-regex", "missing-iface",
                  "pkg-missing-all", "pkg-missing-regex", "pkg-missing-listed", "pkg-typeerr", "pkg-parseerr", "pkg-importerr",
-                 "conflict-srcpkg", "conflict-pkgname", "conflict-template", "cyclic-shadowed"}
+                 "conflict-srcpkg", "conflict-pkgname", "conflict-template", "cyclic-shadowed", "untidy-module"}
+\* the conflict classes come in spellings: packages that share their package NAME (and an interface name), pkgnames that
+\* differ only in case, two different custom templates -- different source package PATHS / pkgnames / templates => error
+ConflictFeatures(c) == CASE c = "conflict-srcpkg" -> {"-", "same-package-name"}
+                         [] c = "conflict-pkgname" -> {"-", "case-only"}
+                         [] c = "conflict-template" -> {"-", "two-custom-urls"}
+                         [] OTHER -> {"-"}
+UntidyFeatures == {"replace-without-require", "missing-gosum-line"}
 PkgErrClasses == {"pkg-typeerr", "pkg-parseerr", "pkg-importerr"}
 
 \* pre-loop phase in which the code reports the class ("-" : not before the loop)
 PhaseOf(c) ==
   CASE c \in {"unknown-key", "unknown-key-pkgstruct", "unknown-key-ifacestruct"} -> "load"     \* config.go:215 ErrorUnused
     [] c = "subpkg-regex" -> "init"                                                               \* config.go:387 ShouldExcludeSubpkg
-    [] c \in {"pkg-typeerr", "pkg-parseerr", "pkg-importerr",
+    [] c \in {"pkg-typeerr", "pkg-parseerr", "pkg-importerr", "untidy-module",
               "pkg-missing-all", "pkg-missing-regex", "pkg-missing-listed"} -> "parse"             \* parse.go:53-70 (a package that
                                                                                                   \* cannot be found is an error: ad32862)
     [] c \in {"include-regex", "exclude-regex"} -> "select"                                       \* config.go:524-539
@@ -184,7 +194,11 @@ AnyFailure(wd) ==
 \* The code reports a shadowed cycle written at package level; one written at top level or at interface level (and
 \* overridden by every package / every configs entry) is never resolved and the run succeeds.  The contract demands
 \* failure where statement and code agree (package level) and leaves the other two placements open.
-UndecidedInput(wd) == wd.fault.kind = "input" /\ wd.fault.class = "cyclic-shadowed" /\ wd.fault.level # "pkg"
+\* An untidy-but-resolvable module: the code refuses (the go command's default mode); a tool that resolved the imports
+\* without writing would be as good.  Either way the Frame condition holds: go.mod and go.sum are not designated.
+UndecidedInput(wd) == /\ wd.fault.kind = "input"
+                      /\ \/ (wd.fault.class = "cyclic-shadowed" /\ wd.fault.level # "pkg")
+                         \/ wd.fault.class = "untidy-module"
 AllowedFinal(wd, f) ==
   IF f \notin Configured(wd) THEN {"old"}
   ELSE IF UndecidedInput(wd) THEN {"old", "new"}
